@@ -208,7 +208,12 @@ func DerivedNames(s string) []string {
 	if strings.HasPrefix(b, "*.") {
 		b = b[2:]
 	}
-	return []string{s, b, "a." + b, "B.a." + b, asciiUpper(b), "." + b, b + ".", "x-1." + asciiUpper(b)}
+	// upper-case first label only: the rest of the name is already in map-key form
+	uf := asciiUpper(b)
+	if label, rest, ok := strings.Cut(b, "."); ok {
+		uf = asciiUpper(label) + "." + rest
+	}
+	return []string{s, b, "a." + b, "B.a." + b, asciiUpper(b), "." + b, b + ".", "x-1." + asciiUpper(b), uf}
 }
 
 // Expand turns the pool-relative and "all" lookups into explicit lookups.
